@@ -205,6 +205,8 @@ def _cycle_kind(b):
         return 'colour cycle'
     if tag(b) == 'g' and b[1].startswith('ampycloud.plots.hardcoded.') and b[1].split('.')[-1].isupper():
         return b[1].split('.')[-1]
+    if tag(b) in ('list', 'tuple') and len(b[1]) >= 2 and all(T.is_const(x) and isinstance(x[1], str) for x in b[1]):
+        return 'style table (' + ', '.join(repr(x[1]) for x in b[1][:3]) + ', ...)'      # a named constant list, as a value
     return None
 
 
@@ -227,7 +229,8 @@ def cycles_modulo(ctx, rule='C20-R4'):
             continue
         n += 1
         ln = ('call', ('g', 'builtins.len'), (b,), ())
-        ok = (T.is_const(i) and isinstance(i[1], int)) or (tag(i) == 'bin' and i[1] == '%' and i[3] == ln)
+        ok = (T.is_const(i) and isinstance(i[1], int)) or (tag(i) == 'bin' and i[1] == '%' and (
+            i[3] == ln or (tag(b) in ('list', 'tuple') and i[3] == C(len(b[1])))))
         ctx.check(ok, rule, q, e.node, e.loc(),
                   f'{_cycle_kind(b)} is indexed by {T.show(i, maxlen=60)} without `% len(...)`: IndexError '
                   'as soon as there are more sets / ceilometers than entries in the cycle',
